@@ -1,11 +1,13 @@
 import ScVerif.C16.Float
+import ScVerif.C16.Wire
 /-!
 # C16 — protobuf message trees (populated fields only)
 
 A message is what `protoreflect.Message` exposes to `pkg/cmp`: its descriptor (full name), validity
 (`IsValid`: false for a typed nil pointer), the populated fields that `Range` visits — each with its
 field descriptor (number + name) and a singular value, list or map — and the unknown fields already
-split into wire records `(field number, raw bytes in hex)`.
+split into wire records `(field number, raw bytes)` — by the model of
+`protowire.ConsumeField` in `Wire.lean` when the driver reads a message.
 
 Strings and bytes are carried as the lower-case hex of their bytes (equality of hex = equality of bytes).
 -/
@@ -27,8 +29,8 @@ structure FD where
   name : String
   deriving DecidableEq, Repr, Inhabited
 
-/-- Unknown fields: wire records in order, `(field number, hex of the record's raw bytes)`. -/
-abbrev Unk := List (Nat × String)
+/-- Unknown fields: wire records in order, `(field number, the record's raw bytes)`. -/
+abbrev Unk := List (Nat × Bytes)
 
 mutual
   inductive Val where
